@@ -440,3 +440,184 @@ Proof.
                lf_name lf_attrs lf_value lf_repeat lf_self sh_toks rep_toks_at length app Nat.add];
           reflexivity.
 Qed.
+
+(* ================================================================ layout: parser-level statement and tokens *)
+Definition lay_istmt_with (F : nat -> iunit -> gunit * list token) :=
+  fix go (pos : nat) (xs : istmt) : gstmt * list token :=
+    match xs with
+    | [] => ([], [])
+    | (u, o) :: xs' =>
+        match xs' with
+        | [] => ([(fst (F pos u), SSibling)], snd (F pos u))
+        | _ :: _ =>
+            ((fst (F pos u), o) :: fst (go (pos + iulen u + length (op_text o)) xs'),
+             snd (F pos u) ++ op_toks o (pos + iulen u) ++ snd (go (pos + iulen u + length (op_text o)) xs'))
+        end
+    end.
+
+Fixpoint lay_iunit (pos : nat) (u : iunit) : gunit * list token :=
+  match u with
+  | IE n sh r => (GE (ie_leaf n sh r pos), ie_toks n sh r pos)
+  | IG body r =>
+      let inner := lay_istmt_with lay_iunit (pos + 1) body in
+      (GG (fst inner) (rep_of_digits r),
+       lparen_tok pos :: snd inner ++
+       rparen_tok (pos + 1 + islen body) :: rep_toks_at r (pos + 1 + islen body + 1))
+  end.
+Definition lay_istmt (pos : nat) (xs : istmt) : gstmt * list token := lay_istmt_with lay_iunit pos xs.
+
+Lemma render4_cons u o y xs :
+  render4 ((u, o) :: y :: xs) = render_iunit u ++ op_text o ++ render4 (y :: xs).
+Proof. reflexivity. Qed.
+Lemma lay_istmt_cons pos u o y xs :
+  lay_istmt pos ((u, o) :: y :: xs) =
+  ((fst (lay_iunit pos u), o) :: fst (lay_istmt (pos + iulen u + length (op_text o)) (y :: xs)),
+   snd (lay_iunit pos u) ++ op_toks o (pos + iulen u) ++ snd (lay_istmt (pos + iulen u + length (op_text o)) (y :: xs))).
+Proof. reflexivity. Qed.
+
+(* ================================================================ the tokenizer on a rendered statement *)
+Definition iunit_run (u : iunit) : Prop :=
+  forall g rest prev pos, stop4 rest ->
+  exists prev',
+    toks 0 (ctx_g g) prev pos (render_iunit u ++ rest) =
+    match toks 0 (ctx_g g) prev' (pos + iulen u) rest with
+    | TOk l => TOk (snd (lay_iunit pos u) ++ l)
+    | TErr p => TErr p
+    end.
+
+Definition istmt_run (xs : istmt) : Prop :=
+  forall g rest prev pos, stopS rest ->
+  exists prev',
+    toks 0 (ctx_g g) prev pos (render4 xs ++ rest) =
+    match toks 0 (ctx_g g) prev' (pos + islen xs) rest with
+    | TOk l => TOk (snd (lay_istmt pos xs) ++ l)
+    | TErr p => TErr p
+    end.
+
+Lemma istmt_run_of_units : forall xs, Forall (fun x => iunit_run (fst x)) xs -> istmt_run xs.
+Proof.
+  induction xs as [|[u o] xs' IH]; intros HF g rest prev pos Hs.
+  - exists prev. unfold islen. cbn [render4 render_istmt_with app length lay_istmt lay_istmt_with snd]. rewrite Nat.add_0_r.
+    destruct (toks 0 (ctx_g g) prev pos rest); reflexivity.
+  - inversion HF as [|x l Hu Hr]; subst. cbn [fst] in Hu.
+    destruct xs' as [|y xs''].
+    + unfold islen. cbn [render4 render_istmt_with lay_istmt lay_istmt_with snd].
+      apply (Hu g rest prev pos (stopS_stop4 _ Hs)).
+    + rewrite render4_cons, lay_istmt_cons. cbn [snd]. rewrite <- !app_assoc.
+      destruct (Hu g (op_text o ++ render4 (y :: xs'') ++ rest) prev pos) as [prev1 E1].
+      { destruct o; cbn; unfold TokenizeRender.op_char; auto. }
+      rewrite E1.
+      destruct (op_toks_run3 g o (render4 (y :: xs'') ++ rest) prev1 (pos + iulen u)) as [prev2 E2]. rewrite E2.
+      destruct (IH Hr g rest prev2 (pos + iulen u + length (op_text o)) Hs) as [prev3 E3]. rewrite E3.
+      exists prev3. unfold islen. rewrite render4_cons, !app_length. fold (iulen u). fold (islen (y :: xs'')).
+      rewrite !Nat.add_assoc.
+      destruct (toks 0 (ctx_g g) prev3 (pos + iulen u + length (op_text o) + islen (y :: xs'')) rest); [|reflexivity].
+      rewrite <- !app_assoc. reflexivity.
+Qed.
+
+Lemma iwf_units body : iwf_with iwf_unit body -> Forall (fun x => iwf_unit (fst x)) body.
+Proof.
+  induction body as [|[u o] xs IH]; intros H; [constructor|]. cbn [iwf_with] in H. destruct H as [Hu [_ Hx]].
+  constructor; [exact Hu|apply IH, Hx].
+Qed.
+
+Theorem iunit_run_all : forall u, iwf_unit u -> iunit_run u.
+Proof.
+  induction u as [n sh r|body r IH] using iunit_ind'; intros Hwf g rest prev pos Hs.
+  - cbn [iwf_unit] in Hwf. cbn [render_iunit lay_iunit snd]. rewrite <- !app_assoc.
+    destruct (ie_run g n sh r rest prev pos Hwf Hs) as [prev' E]. exists prev'. rewrite E.
+    unfold iulen, ie_len. cbn [render_iunit]. rewrite !app_length.
+    replace (length n + (length (sh_text sh) + length (rep_text r))) with (length n + length (sh_text sh) + length (rep_text r)) by lia. reflexivity.
+  - cbn [iwf_unit] in Hwf. destruct Hwf as [Hbody Hrep].
+    assert (Hrun : istmt_run body).
+    { apply istmt_run_of_units. pose proof (iwf_units body Hbody) as Hall.
+      rewrite Forall_forall in *. intros x Hx. apply (IH x Hx), (Hall x Hx). }
+    cbn [render_iunit lay_iunit snd]. fold (render4 body). fold (lay_istmt (pos + 1) body).
+    change ((c_lparen :: render4 body ++ c_rparen :: rep_text r) ++ rest)
+      with ([c_lparen] ++ (render4 body ++ c_rparen :: rep_text r) ++ rest).
+    rewrite (toks_step [c_lparen] _ (ctx_g g) prev pos (TBracket true BGroup) (ctx_g (g + 1)));
+      [|discriminate|cbn [app length]; apply consume_lparen].
+    cbn [length]. rewrite <- app_assoc.
+    destruct (Hrun (g + 1)%Z ((c_rparen :: rep_text r) ++ rest) (lastc [c_lparen]) (pos + 1)) as [prev1 E1]; [reflexivity|].
+    rewrite E1.
+    change ((c_rparen :: rep_text r) ++ rest) with ([c_rparen] ++ rep_text r ++ rest).
+    rewrite (toks_step [c_rparen] _ (ctx_g (g + 1)) prev1 (pos + 1 + islen body) (TBracket false BGroup) (ctx_g (g + 1 + -1)));
+      [|discriminate|cbn [app length]; apply consume_rparen].
+    replace (g + 1 + -1)%Z with g by lia. cbn [length].
+    assert (Hlen : iulen (IG body r) = 1 + islen body + 1 + length (rep_text r)).
+    { unfold iulen, islen. cbn [render_iunit length]. fold (render4 body). rewrite app_length. cbn [length]. lia. }
+    destruct r as [ds|]; cbn [rep_text rep_toks_at app] in *.
+    + change (c_star :: ds ++ rest) with ((c_star :: ds) ++ rest).
+      rewrite (toks_step (c_star :: ds) rest (ctx_g g) (lastc [c_rparen]) (pos + 1 + islen body + 1) (TRepeater (count_of ds) 0 false) (ctx_g g));
+        [|discriminate|cbn [app length]; apply consume_rep3; assumption].
+      exists (lastc (c_star :: ds)). rewrite Hlen. cbn [length].
+      replace (pos + (1 + islen body + 1 + S (length ds))) with (pos + 1 + islen body + 1 + S (length ds)) by lia.
+      destruct (toks 0 (ctx_g g) (lastc (c_star :: ds)) (pos + 1 + islen body + 1 + S (length ds)) rest); [|reflexivity].
+      unfold lparen_tok, rparen_tok. cbn [app]. rewrite <- app_assoc. reflexivity.
+    + exists (lastc [c_rparen]). rewrite Hlen. cbn [length].
+      replace (pos + (1 + islen body + 1 + 0)) with (pos + 1 + islen body + 1) by lia.
+      destruct (toks 0 (ctx_g g) (lastc [c_rparen]) (pos + 1 + islen body + 1) rest); [|reflexivity].
+      unfold lparen_tok, rparen_tok. cbn [app]. rewrite <- app_assoc. reflexivity.
+Qed.
+
+Theorem toks_render4 xs :
+  iwf xs -> tokenize (render4 xs) = TOk (snd (lay_istmt 0 xs)).
+Proof.
+  intros Hwf.
+  assert (Hrun : istmt_run xs).
+  { apply istmt_run_of_units. pose proof (iwf_units xs Hwf) as Hall.
+    rewrite Forall_forall in *. intros x Hx. apply iunit_run_all, (Hall x Hx). }
+  destruct (Hrun 0%Z [] None 0 I) as [prev' E]. rewrite !app_nil_r in E. unfold tokenize.
+  change ctx0 with (ctx_g 0). rewrite E. cbn [toks]. rewrite app_nil_r. reflexivity.
+Qed.
+
+(* ================================================================ the tokens form a statement with groups *)
+(* JSX: no unit is a `Cap.Cap` pair *)
+Definition ijsx_with (F : iunit -> bool) := fix go (xs : istmt) : bool := match xs with [] => true | (u, _) :: xs' => F u && go xs' end.
+Fixpoint ijsx_unit (jsx : bool) (u : iunit) : bool :=
+  match u with
+  | IE n sh _ => jsx_ok jsx n sh
+  | IG body _ => ijsx_with (ijsx_unit jsx) body
+  end.
+Definition ijsx (jsx : bool) (xs : istmt) : bool := ijsx_with (ijsx_unit jsx) xs.
+
+Lemma ijsx_units jsx body : ijsx_with (ijsx_unit jsx) body = true -> Forall (fun x => ijsx_unit jsx (fst x) = true) body.
+Proof.
+  induction body as [|[u o] xs IH]; intros H; [constructor|]. cbn [ijsx_with] in H. apply andb_prop in H. destruct H as [Hu Hx].
+  constructor; [exact Hu|apply IH, Hx].
+Qed.
+
+Lemma lay_igflat_of_units jsx : forall xs,
+  Forall (fun x => forall pos, unit_toks jsx (fst (lay_iunit pos (fst x))) (snd (lay_iunit pos (fst x)))) xs ->
+  iwf_with iwf_unit xs ->
+  forall pos, gflat jsx (fst (lay_istmt pos xs)) (snd (lay_istmt pos xs)).
+Proof.
+  induction xs as [|[u o] xs' IH]; intros HF Hwf pos; [apply gf_nil|].
+  inversion HF as [|x l Hu Hr]; subst. cbn [fst] in Hu.
+  cbn [iwf_with] in Hwf. destruct Hwf as [_ [Hgo Hwx]].
+  destruct xs' as [|y xs''].
+  - cbn [lay_istmt lay_istmt_with fst snd]. apply gf_last. apply Hu.
+  - rewrite lay_istmt_cons. cbn [fst snd]. apply gf_cons; [apply Hu|apply op_toks_tokens| |apply IH; assumption].
+    intros Hg. apply Hgo. destruct u; [discriminate|reflexivity].
+Qed.
+
+Theorem lay_iunit_toks jsx : forall u, iwf_unit u -> ijsx_unit jsx u = true ->
+  forall pos, unit_toks jsx (fst (lay_iunit pos u)) (snd (lay_iunit pos u)).
+Proof.
+  induction u as [n sh r|body r IH] using iunit_ind'; intros Hwf Hj pos.
+  - cbn [lay_iunit fst snd]. apply ut_elem. apply ie_block; assumption.
+  - cbn [iwf_unit] in Hwf. destruct Hwf as [Hbody _]. cbn [ijsx_unit] in Hj.
+    cbn [lay_iunit fst snd]. fold (lay_istmt (pos + 1) body).
+    apply ut_group; [reflexivity|reflexivity| |apply rep_toks_at_rep].
+    apply lay_igflat_of_units; [|exact Hbody].
+    pose proof (iwf_units body Hbody) as Hall. pose proof (ijsx_units jsx body Hj) as Hjl.
+    rewrite Forall_forall in *. intros x Hx pos'. apply (IH x Hx); [apply (Hall x Hx)|apply (Hjl x Hx)].
+Qed.
+
+Theorem lay_istmt_gflat jsx xs : iwf xs -> ijsx jsx xs = true ->
+  forall pos, gflat jsx (fst (lay_istmt pos xs)) (snd (lay_istmt pos xs)).
+Proof.
+  intros Hwf Hj. apply lay_igflat_of_units; [|exact Hwf].
+  pose proof (iwf_units xs Hwf) as Hall. pose proof (ijsx_units jsx xs Hj) as Hjl.
+  rewrite Forall_forall in *. intros x Hx pos. apply lay_iunit_toks; [apply (Hall x Hx)|apply (Hjl x Hx)].
+Qed.
